@@ -44,6 +44,7 @@ CONSTANT Variant
   \* "substfirst"  substitution before path.Join
   \* "revprec"     base-path query wins over pattern query
   \* "memoscheme"  the scheme chosen for the first request of a Runtime is remembered for all later ones
+  \* "otelfirstscheme" the OpenTelemetry transport hands the runtime only the first of the operation's schemes
   \* "earlysnapshot" the "set by the caller" snapshot of the query is taken before the auth writer runs
   \* "seqfixed"    the repair with sequential ReplaceAll instead of one pass (a value that
   \*               looks like a placeholder is substituted again, order-dependent)
@@ -272,9 +273,17 @@ PickScheme(rs, os) ==
   ELSE IF SelectScheme(os) # "" THEN SelectScheme(os)
   ELSE "http"
 
+\* Entry points: Runtime.Submit / CreateHttpRequest directly, or through the tracing transports
+\* Runtime.WithOpenTelemetry() / WithOpenTracing(), which submit a copy of the operation with instrumented
+\* writer and reader and otherwise unchanged - in particular with the operation's own scheme list.
+Entries == {"create", "submit", "otel", "opentracing"}
+EntrySchemes(entry, os) ==
+  IF Variant = "otelfirstscheme" /\ entry = "otel" /\ os # <<>> THEN <<os[1]>> ELSE os
+
 \* A Runtime serves a history of operations; the scheme of the i-th request depends on that
 \* operation's own scheme list only (pickScheme keeps no state).
 CodeSchemeAt(rs, hist, i) == IF Variant = "memoscheme" THEN PickScheme(rs, hist[1]) ELSE PickScheme(rs, hist[i])
+CodeSchemeVia(entry, rs, hist, i) == PickScheme(rs, EntrySchemes(entry, (IF Variant = "memoscheme" THEN hist[1] ELSE hist[i])))
 
 ---------------------------------------------------------------------------
 (* The property C10, on the observed URL                                   *)
